@@ -294,14 +294,19 @@ def check_C14(ctx, rep):
         return
     pol = vg.Policy(f, "op")
     eh = [b for b in fx.by_sig(["i32"], TF) if pol.has_loop_or_recursion(b)]       # the self-recursive table function
-    mp = [b for b in fx.by_sig(["f64", "i32"], "f64") if pol.has_loop_or_recursion(b)]
+    # the exponent may be carried in any signed integer type that holds -1074..1023
+    EXP_TYS = ("i32", "i64", "i16", "isize", "i128")
+    mp = [(b, ity) for ity in EXP_TYS for b in fx.by_sig(["f64", ity], "f64") if pol.has_loop_or_recursion(b)]
     if not mp:
-        # the scaling helper may also be a local closure of exp2: any looping closure taking (f64, i32)
+        # the scaling helper may also be a local closure of exp2: any looping closure taking (f64, int)
         for b in f.live:
-            if b.kind == "Closure" and pol.has_loop_or_recursion(b) and [F.norm_ty(l["ty"]) for l in b.mir["locals"][2:1 + b.mir["arg_count"]]] == ["f64", "i32"]:
-                mp.append(b)
+            sig = [F.norm_ty(l["ty"]) for l in b.mir["locals"][2:1 + b.mir["arg_count"]]]
+            if b.kind == "Closure" and pol.has_loop_or_recursion(b) and len(sig) == 2 and sig[0] == "f64" and sig[1] in EXP_TYS:
+                mp.append((b, sig[1]))
+    MP_TY = mp[0][1] if mp else "i32"
+    mp = [b for b, _ in mp]
     rep.check(len(eh) == 1, "R35", "exp(n/2) table function (role-identified)", "anchor-lost:exp_half", "expected exactly one private fn(i32) -> TwoFloat, found %s (reason=anchor-lost)" % [b.ident() for b in eh], nontrivial=False)
-    rep.check(len(mp) == 1, "R35", "power-of-two scaling function (role-identified)", "anchor-lost:mul_pow2", "expected exactly one private fn(f64, i32) -> f64, found %s (reason=anchor-lost)" % [b.ident() for b in mp], nontrivial=False)
+    rep.check(len(mp) == 1, "R35", "power-of-two scaling function (role-identified)", "anchor-lost:mul_pow2", "expected exactly one private looping fn(f64, <signed int>) -> f64, found %s (reason=anchor-lost)" % [b.ident() for b in mp], nontrivial=False)
     if len(eh) != 1 or len(mp) != 1:
         return
     EH = eh[0].ident(); MP = mp[0].ident()
@@ -389,7 +394,7 @@ def check_C14(ctx, rep):
         r1 = horner_chain(r, frac, 0, 12)
         for _ in range(9):
             r1 = r1 * r1
-        ki = cast("FloatToInt", "f64", "i32", k).t
+        ki = cast("FloatToInt", "f64", MP_TY, k).t
         if not fx.fts:
             rep.fail("R35", "exp2 renormalisation", "anchor-lost:fast2sum", "no Fast2Sum primitive (reason=anchor-lost)"); return None
         if mp[0].kind == "Closure":
@@ -440,8 +445,8 @@ def check_mul_pow2(fx, b):
             rv = s.get("rv", {})
             for k in ("a", "b"):
                 o = rv.get(k)
-                if isinstance(o, dict) and "const" in o and (o["const"].get("val") or {}).get("k") == "scalar" and o["const"]["ty"] in ("i32", "u64"):
-                    consts.append(vg.to_signed(o["const"]["ty"], int(o["const"]["val"]["bits"], 16)) if o["const"]["ty"] == "i32" else int(o["const"]["val"]["bits"], 16))
+                if isinstance(o, dict) and "const" in o and (o["const"].get("val") or {}).get("k") == "scalar" and o["const"]["ty"] in vg.INT_BITS:
+                    consts.append(vg.to_signed(o["const"]["ty"], int(o["const"]["val"]["bits"], 16)))
     need = {-1074, -1022, 1024, 1074, 1023, 52, 1}
     rep.check(need <= set(consts), "R35", "mul_pow2 breakpoints", "mul-pow2-consts",
               "the power-of-two scaling helper no longer uses the binary64 breakpoints -1074/-1022/1024 and biases 1074/1023/52: %s" % sorted(set(consts)), where=H.where(b), detail=sorted(set(consts)))
@@ -964,11 +969,12 @@ def check_powi_loop(fx):
     entry = entries[0][2]
     hv_of = {hv: (l, before) for l, (before, hv) in entry.items()}
     # shape: if N > 0 { if (N & 1) != 0 {back} else {back} } else { if n > 0 {ret R} else {ret recip(R)} }
+    UTYS = ("u32", "u64", "u128", "usize")      # unsigned counter types that hold |i32::MIN|
     def uconst(t, v):
-        return tag(t) == "const" and t[1] == "u32" and t[2] == v
+        return tag(t) == "const" and t[1] in UTYS and t[2] == v
     def pos_test(c):
         """(N, polarity): c true  <=>  N > 0 (polarity True) or N == 0 (False), for an unsigned havoc N"""
-        if tag(c) == "cmp" and tag(c[3]) == "havoc" and uconst(c[4], 0):
+        if tag(c) == "cmp" and tag(c[3]) == "havoc" and c[3][2] in UTYS and uconst(c[4], 0) and c[4][1] == c[3][2]:
             if c[1] in ("gt", "ne"):
                 return c[3], True
             if c[1] in ("eq", "le"):
@@ -990,7 +996,8 @@ def check_powi_loop(fx):
     if rpos[0] != "leaf" or tag(rpos[1]) != "havoc" or rneg != ("leaf", N.norm(mk("call", "TwoFloat::recip", rpos[1])), ()):
         return fail("exit is not `n > 0 ? result : recip(result)`")
     R = rpos[1]
-    low = mk("i", "bitand", "u32", Nn, mk("const", "u32", 1))
+    cty = Nn[2]
+    low = mk("i", "bitand", cty, Nn, mk("const", cty, 1))
     if body[0] != "if" or tag(body[1]) != "cmp" or body[1][3] is not low or body[2][0] != "backedge" or body[3][0] != "backedge":
         return fail("loop body does not test the low bit of the remaining exponent")
     bc = body[1]
@@ -1014,12 +1021,15 @@ def check_powi_loop(fx):
     if Vv is None:
         return fail("no variable is squared on every iteration")
     sq = N.norm(mk("call", "op:mul:TwoFloat:TwoFloat", Vv, Vv))
-    half = mk("i", "shr", "u32", Nn, mk("const", "u32", 1))
+    half = mk("i", "shr", cty, Nn, mk("const", "u32", 1))
     conds = [after(snap_t, R) is N.norm(mk("call", "op:mul:TwoFloat:TwoFloat", R, Vv)), after(snap_f, R) is R,
              after(snap_t, Vv) is sq, after(snap_f, Vv) is sq, after(snap_t, Nn) is half, after(snap_f, Nn) is half]
     if not all(conds):
         return fail("iteration is not { if bit { result *= value }; value *= value; n >>= 1 } (%s)" % conds)
-    init_ok = hv_of[R][1] is one and hv_of[Vv][1] is s and tag(hv_of[Nn][1]) == "call" and hv_of[Nn][1][1] == "core::num::<impl i32>::unsigned_abs" and hv_of[Nn][1][2] is P(1)
+    n0 = hv_of[Nn][1]
+    if tag(n0) == "cast" and n0[1] == "IntToInt" and n0[2] == "u32" and n0[3] == cty and vg.INT_BITS[cty] >= 32:
+        n0 = n0[4]      # lossless widening of |n|
+    init_ok = hv_of[R][1] is one and hv_of[Vv][1] is s and tag(n0) == "call" and n0[1] == "core::num::<impl i32>::unsigned_abs" and n0[2] is P(1)
     if not init_ok:
         return fail("initial state is not (result, value, remaining) = (1, self, |n| without overflow): %s, %s, %s" % (vg.show(hv_of[R][1]), vg.show(hv_of[Vv][1]), vg.show(hv_of[Nn][1])))
     rep.ok("R26", "powi square-and-multiply loop", detail="(result, value, k) = (1, self, unsigned_abs(n)); while k > 0 { if k&1 != 0 { result *= value }; value *= value; k >>= 1 }; n > 0 ? result : recip(result)")
